@@ -47,6 +47,12 @@ def goenv():
     return e
 
 
+def patch_of(d):
+    """patch.diff as delivered, or patch.rebased.diff when /repo has moved on (a later fix: commit touched the same lines)"""
+    r = os.path.join(d, "patch.rebased.diff")
+    return r if os.path.exists(r) else os.path.join(d, "patch.diff")
+
+
 def demo_of(d):
     demos = [f for f in os.listdir(d) if f.endswith("_test.go")]
     if len(demos) != 1:
@@ -71,7 +77,7 @@ def verify(d):
         res["demo_without_patch"] = "pass" if rc == 0 else "FAIL"
         res["demo_without_patch_tail"] = out[-600:]
         os.remove(os.path.join(wt, where, demo))
-        rc, out = sh(["git", "apply", os.path.join(d, "patch.diff")], cwd=wt)
+        rc, out = sh(["git", "apply", patch_of(d)], cwd=wt)
         if rc != 0:
             res["apply"] = "FAIL " + out
             return res
@@ -97,7 +103,7 @@ def run(d, tier, props):
     wt = worktree()
     out_rows = []
     try:
-        rc, out = sh(["git", "apply", os.path.join(d, "patch.diff")], cwd=wt)
+        rc, out = sh(["git", "apply", patch_of(d)], cwd=wt)
         if rc != 0:
             sys.exit("patch does not apply: " + out)
         runs = os.path.join(d, "runs")
